@@ -1,7 +1,7 @@
 (* Wire.v -- one generic wire format (nested lists of integers) shared by the
    in-Coq evaluation path (gen/Cases_*.v) and the extracted OCaml driver, with
    decoders for the model's inputs and encoders for its outputs.  Definitions only. *)
-From NasimV Require Export Env.
+From NasimV Require Export Monitors.
 
 Inductive sx := I (z : Z) | L (l : list sx).
 
@@ -113,6 +113,23 @@ Definition d_hrow (s : sx) : option hrow :=
       Some (mkRow ad' c' r' d' v' dv' ac' os' sv' pr')
   | _ => None end.
 Definition d_state : sx -> option state := d_list d_hrow.
+
+Definition d_result (s : sx) : option result :=
+  match s with
+  | L [su; v; c; p; u; sv; os; pr; ac; di; nw] =>
+      do su' <- d_bool su; do v' <- d_Z v; do c' <- d_bool c; do p' <- d_bool p; do u' <- d_bool u;
+      do sv' <- d_opt (d_list d_bool) sv; do os' <- d_opt (d_list d_bool) os;
+      do pr' <- d_opt (d_list d_bool) pr; do ac' <- d_opt d_nat ac;
+      do di' <- d_list d_bool di; do nw' <- d_list d_bool nw;
+      Some (mkRes su' v' c' p' u' sv' os' pr' ac' di' nw')
+  | _ => None end.
+Definition d_rec (s : sx) : option rec :=
+  match s with
+  | L [st; a; k; st'; r; u; rw; dn] =>
+      do st1 <- d_state st; do a' <- d_action a; do k' <- d_Z k; do st2 <- d_state st';
+      do r' <- d_result r; do u' <- d_bool u; do rw' <- d_Z rw; do dn' <- d_bool dn;
+      Some (mkRec st1 a' k' st2 r' u' rw' dn')
+  | _ => None end.
 
 (* ---------- encoders ---------- *)
 Definition x_nat (n : nat) : sx := I (Z.of_nat n).
